@@ -45,106 +45,235 @@ pub struct ChildResult {
 }
 
 fn gen_cmds(r: &mut Rng, n: u64) -> Vec<MetadataCmd> {
+    // only commands the state machine accepts: an apply error is fatal for a Raft node and ends the batch in the
+    // adapter, which is not what this property is about (rollovers therefore name topics that exist)
+    let mut created: std::collections::BTreeSet<String> = Default::default();
     let mut v = Vec::new();
     for _ in 0..n {
         let t = ["ta", "tb", "tc"][r.below(3) as usize].to_string();
         v.push(match r.below(10) {
-            0..=3 => MetadataCmd::CreateTopic { name: t, initial_leader: r.range(1, 3) },
-            4..=7 => MetadataCmd::RolloverTopic { name: t, new_leader: r.range(1, 3), sealed_segment_entry_count: r.below(9) },
+            0..=2 => {
+                created.insert(t.clone());
+                MetadataCmd::CreateTopic { name: t, initial_leader: r.range(1, 3) }
+            }
+            3..=7 => {
+                if created.contains(&t) {
+                    MetadataCmd::RolloverTopic { name: t, new_leader: r.range(1, 3), sealed_segment_entry_count: r.below(9) }
+                } else {
+                    created.insert(t.clone());
+                    MetadataCmd::CreateTopic { name: t, initial_leader: r.range(1, 3) }
+                }
+            }
             _ => MetadataCmd::UpsertNode { node_id: r.range(1, 4), addr: format!("10.0.0.{}:600{}", r.range(1, 4), r.range(1, 4)) },
         });
     }
     v
 }
 
-fn norm(bytes: &[u8]) -> serde_json::Value {
-    serde_json::from_slice(bytes).unwrap_or(serde_json::Value::Null)
+/// The application metadata as seen through its read accessors (not through `snapshot()`, which is under test).
+fn view(m: &Metadata) -> serde_json::Value {
+    let mut topics = BTreeMap::new();
+    for t in ["ta", "tb", "tc"] {
+        if let Some(st) = m.get_topic_state(t) {
+            let mut v = serde_json::to_value(&st).unwrap_or(serde_json::Value::Null);
+            // HashMap fields serialise in hash order; compare as sorted maps
+            for f in ["sealed_segments", "segment_leaders"] {
+                if let Some(o) = v.get(f).and_then(|x| x.as_object()).cloned() {
+                    let sorted: BTreeMap<String, serde_json::Value> = o.into_iter().collect();
+                    v[f] = serde_json::to_value(sorted).unwrap();
+                }
+            }
+            topics.insert(t.to_string(), v);
+        }
+    }
+    let mut nodes = m.all_node_addrs();
+    nodes.sort();
+    serde_json::json!({ "topics": topics, "nodes": nodes })
 }
 
-async fn apply_all(sm: &mut Arc<MemStateMachine>, cmds: &[MetadataCmd], start_index: u64) {
-    let mut items: Vec<Result<EntryResponder<AppTypeConfig>, std::io::Error>> = Vec::new();
+type Item = Result<EntryResponder<AppTypeConfig>, std::io::Error>;
+
+/// Entries arrive from the log asynchronously: the stream is not ready at a seeded subset of its polls, so other
+/// tasks (a snapshot build) run between two entries of one apply batch.
+struct YieldingStream {
+    items: std::collections::VecDeque<Item>,
+    p_yield: f64,
+}
+impl futures::Stream for YieldingStream {
+    type Item = Item;
+    fn poll_next(mut self: std::pin::Pin<&mut Self>, cx: &mut std::task::Context<'_>) -> std::task::Poll<Option<Item>> {
+        if !self.items.is_empty() && tokio::sim::chance(self.p_yield) {
+            cx.waker().wake_by_ref();
+            return std::task::Poll::Pending;
+        }
+        std::task::Poll::Ready(self.items.pop_front())
+    }
+}
+
+fn entries_for(cmds: &[MetadataCmd], start_index: u64) -> std::collections::VecDeque<Item> {
+    let mut items = std::collections::VecDeque::new();
     for (i, c) in cmds.iter().enumerate() {
         let data = bincode::serialize(c).unwrap();
         let entry = Entry { log_id: LogId::new(1, 1, start_index + i as u64), payload: EntryPayload::Normal(AppEntry(data)) };
         let (resp, _slot) = ApplyResponder::new();
-        items.push(Ok((entry, Some(resp))));
+        items.push_back(Ok((entry, Some(resp))));
     }
-    let _ = sm.apply(futures::stream::iter(items)).await;
+    items
+}
+
+async fn apply_all(sm: &mut Arc<MemStateMachine>, cmds: &[MetadataCmd], start_index: u64, p_yield: f64) {
+    let _ = sm.apply(YieldingStream { items: entries_for(cmds, start_index), p_yield }).await;
+}
+
+fn reference(cmds: &[MetadataCmd]) -> Metadata {
+    let m = Metadata::new();
+    for c in cmds {
+        let _ = octopii::StateMachineTrait::apply(&m, &bincode::serialize(c).unwrap());
+    }
+    m
 }
 
 pub fn run_child(seed: u64, scale: u64) -> i32 {
     tokio::sim::init(tokio::sim::Config { seed, ..Default::default() });
     let mut r = Rng(crate::mix(seed, 0x20));
     let mut res = ChildResult::default();
-    let n_prefix = (r.range(1, 40) * scale / 100).max(1);
-    let n_suffix = (r.range(0, 20) * scale / 100).max(0);
-    let prefix = gen_cmds(&mut r, n_prefix);
-    let suffix = gen_cmds(&mut r, n_suffix);
-    res.sample = serde_json::json!({"seed": seed, "prefix": prefix.iter().take(8).map(|c| format!("{:?}", c)).collect::<Vec<_>>(), "prefix_len": prefix.len(), "suffix_len": suffix.len()});
-    tokio::sim::block_on(async {
-        // sender
+    let n_total = (r.range(2, 60) * scale / 100).max(1);
+    let cmds = gen_cmds(&mut r, n_total);
+    // apply batches, and the batches before which a snapshot build is started (it then races with that batch)
+    let mut batches: Vec<(usize, usize)> = Vec::new();
+    let mut at = 0usize;
+    while at < cmds.len() {
+        let n = (r.range(1, 8) as usize).min(cmds.len() - at);
+        batches.push((at, at + n));
+        at += n;
+    }
+    let n_snaps = r.range(1, 3) as usize;
+    let mut snap_before: Vec<usize> = (0..n_snaps).map(|_| r.below(batches.len() as u64 + 1) as usize).collect();
+    snap_before.sort();
+    let p_yield = *[0.0f64, 0.3, 0.7].get(r.below(3) as usize).unwrap();
+    res.sample = serde_json::json!({"seed": seed, "commands": cmds.iter().take(8).map(|c| format!("{:?}", c)).collect::<Vec<_>>(), "n_commands": cmds.len(), "batches": batches.len(), "snapshot_before_batch": snap_before, "p_yield": p_yield});
+    let findings: std::rc::Rc<std::cell::RefCell<Vec<Finding>>> = Default::default();
+    let stats: std::rc::Rc<std::cell::RefCell<BTreeMap<String, u64>>> = Default::default();
+    let nontrivial = std::rc::Rc::new(std::cell::Cell::new(false));
+    // what the run observed (snapshot positions, receiver states): part of the determinism digest
+    let trace: std::rc::Rc<std::cell::RefCell<String>> = Default::default();
+    let tr2 = trace.clone();
+    let (f2, s2, nt2) = (findings.clone(), stats.clone(), nontrivial.clone());
+    let n_cmds = cmds.len();
+    let done = std::rc::Rc::new(std::cell::Cell::new(false));
+    let done2 = done.clone();
+    tokio::spawn(async move {
+        struct SetOnDrop(std::rc::Rc<std::cell::Cell<bool>>);
+        impl Drop for SetOnDrop {
+            fn drop(&mut self) {
+                self.0.set(true);
+            }
+        }
+        let _g = SetOnDrop(done2);
+        let push = |rule: &str, detail: String, facts: &[(&str, serde_json::Value)]| {
+            f2.borrow_mut().push(Finding { rule: rule.into(), detail: detail.chars().take(700).collect(), facts: facts.iter().map(|(k, v)| (k.to_string(), v.clone())).collect() });
+        };
+        // sender: batches applied through the adapter while snapshot builds run concurrently
         let meta_a = Arc::new(Metadata::new());
-        let mut a = MemStateMachine::new(Arc::new(Bridge(meta_a.clone())) as StateMachine);
-        apply_all(&mut a, &prefix, 1).await;
-        let sender_state = norm(&octopii::StateMachineTrait::snapshot(&*meta_a));
-        let nonempty = sender_state.get("topics").and_then(|t| t.as_object()).map(|o| !o.is_empty()).unwrap_or(false) || sender_state.get("nodes").and_then(|t| t.as_object()).map(|o| !o.is_empty()).unwrap_or(false);
-        res.nontrivial = nonempty;
-        // plain snapshot -> restore into a fresh state machine
-        {
-            let meta_c = Metadata::new();
+        let a = MemStateMachine::new(Arc::new(Bridge(meta_a.clone())) as StateMachine);
+        let mut handles = Vec::new();
+        for bi in 0..=batches.len() {
+            for _ in snap_before.iter().filter(|x| **x == bi) {
+                let mut a2 = a.clone();
+                handles.push(tokio::spawn(async move { a2.build_snapshot().await }));
+            }
+            if bi < batches.len() {
+                let (lo, hi) = batches[bi];
+                let mut a2 = a.clone();
+                apply_all(&mut a2, &cmds[lo..hi], 1 + lo as u64, p_yield).await;
+            }
+        }
+        let full = reference(&cmds);
+        let full_view = view(&full);
+        if view(&meta_a) != full_view {
+            push("c20.adapter_apply_differs", format!("the state machine behind the adapter differs from one that applied the same {} commands directly: {} vs {}", cmds.len(), view(&meta_a), full_view), &[]);
+            return;
+        }
+        let nonempty = full_view["topics"].as_object().map(|o| !o.is_empty()).unwrap_or(false) || full_view["nodes"].as_array().map(|o| !o.is_empty()).unwrap_or(false);
+        nt2.set(nonempty);
+        let mut snap_no = 0;
+        for h in handles {
+            let snap = match h.await {
+                Ok(Ok(s)) => s,
+                Ok(Err(e)) => {
+                    push("c20.build_failed", format!("build_snapshot failed: {}", e), &[]);
+                    continue;
+                }
+                Err(e) => {
+                    push("c20.build_failed", format!("snapshot task failed: {}", e), &[]);
+                    continue;
+                }
+            };
+            snap_no += 1;
+            let n = snap.meta.last_log_id.map(|l| l.index as usize).unwrap_or(0).min(cmds.len());
+            *s2.borrow_mut().entry("snapshots".into()).or_insert(0) += 1;
+            if batches.iter().any(|(lo, hi)| n > *lo && n < *hi) {
+                *s2.borrow_mut().entry("snapshot_mid_batch".into()).or_insert(0) += 1;
+            }
+            // what a replica that applied exactly the entries 1..=n holds
+            let at_snapshot = view(&reference(&cmds[..n]));
+            let meta_b = Arc::new(Metadata::new());
+            let mut b = MemStateMachine::new(Arc::new(Bridge(meta_b.clone())) as StateMachine);
+            if let Err(e) = b.install_snapshot(&snap.meta, snap.snapshot).await {
+                push("c20.install_failed", format!("install_snapshot failed: {}", e), &[]);
+                continue;
+            }
+            let receiver = view(&meta_b);
+            tr2.borrow_mut().push_str(&format!("snap {} at {} -> {};", snap_no, n, receiver));
+            if receiver != at_snapshot {
+                let recv_empty = !(receiver["topics"].as_object().map(|o| !o.is_empty()).unwrap_or(false) || receiver["nodes"].as_array().map(|o| !o.is_empty()).unwrap_or(false));
+                push(
+                    "c20.snapshot_transfer_differs",
+                    format!("snapshot #{} says last applied index {}; after install_snapshot the receiver holds {} but a replica that applied entries 1..={} holds {}", snap_no, n, receiver, n, at_snapshot),
+                    &[("receiver_empty", serde_json::json!(recv_empty)), ("snapshot_no", serde_json::json!(snap_no)), ("last_index", serde_json::json!(n))],
+                );
+                continue;
+            }
+            // the receiver then applies the same subsequent commands
+            apply_all(&mut b, &cmds[n..], 1 + n as u64, 0.0).await;
+            if view(&meta_b) != full_view {
+                push("c20.diverged_after_suffix", format!("receiver of snapshot #{} (index {}) differs from the sender after both applied the remaining {} commands: {} vs {}", snap_no, n, cmds.len() - n, view(&meta_b), full_view), &[]);
+            }
+            let mut a3 = a.clone();
+            let (la, _) = a3.applied_state().await.unwrap();
+            let (lb, _) = b.applied_state().await.unwrap();
+            if la != lb {
+                push("c20.applied_state_differs", format!("applied log id differs: {:?} vs {:?}", la, lb), &[]);
+            }
+        }
+        // plain snapshot -> restore into a fresh state machine (second clause), repeated on the same instance
+        for round in 0..2 {
             let bytes = octopii::StateMachineTrait::snapshot(&*meta_a);
+            let meta_c = Metadata::new();
             match octopii::StateMachineTrait::restore(&meta_c, &bytes) {
                 Ok(()) => {
-                    let c_state = norm(&octopii::StateMachineTrait::snapshot(&meta_c));
-                    if c_state != sender_state {
-                        res.findings.push(Finding { rule: "c20.restore_differs".into(), detail: format!("Metadata::restore(snapshot()) does not reproduce the state: {} vs {}", c_state, sender_state).chars().take(600).collect(), facts: BTreeMap::new() });
+                    if view(&meta_c) != view(&meta_a) {
+                        push("c20.restore_differs", format!("Metadata::restore(snapshot()) (round {}) does not reproduce the state: {} vs {}", round, view(&meta_c), view(&meta_a)), &[]);
                     }
                 }
-                Err(e) => res.findings.push(Finding { rule: "c20.restore_failed".into(), detail: format!("restore of an own snapshot failed: {}", e), facts: BTreeMap::new() }),
+                Err(e) => push("c20.restore_failed", format!("restore of an own snapshot failed: {}", e), &[]),
             }
-        }
-        // through the Raft state-machine adapter
-        let snap = match a.build_snapshot().await {
-            Ok(s) => s,
-            Err(e) => {
-                res.findings.push(Finding { rule: "c20.build_failed".into(), detail: format!("build_snapshot failed: {}", e), facts: BTreeMap::new() });
-                return;
+            // a rollover between the two rounds
+            if let Some(t) = ["ta", "tb", "tc"].iter().find(|t| meta_a.get_topic_state(t).is_some()) {
+                let c = MetadataCmd::RolloverTopic { name: t.to_string(), new_leader: 1 + round as u64, sealed_segment_entry_count: 3 };
+                let _ = octopii::StateMachineTrait::apply(&*meta_a, &bincode::serialize(&c).unwrap());
             }
-        };
-        let meta_b = Arc::new(Metadata::new());
-        let mut b = MemStateMachine::new(Arc::new(Bridge(meta_b.clone())) as StateMachine);
-        if let Err(e) = b.install_snapshot(&snap.meta, snap.snapshot).await {
-            res.findings.push(Finding { rule: "c20.install_failed".into(), detail: format!("install_snapshot failed: {}", e), facts: BTreeMap::new() });
-            return;
-        }
-        let receiver_state = norm(&octopii::StateMachineTrait::snapshot(&*meta_b));
-        if receiver_state != sender_state {
-            let recv_empty = !(receiver_state.get("topics").and_then(|t| t.as_object()).map(|o| !o.is_empty()).unwrap_or(false) || receiver_state.get("nodes").and_then(|t| t.as_object()).map(|o| !o.is_empty()).unwrap_or(false));
-            let mut facts = BTreeMap::new();
-            facts.insert("receiver_empty".to_string(), serde_json::json!(recv_empty));
-            res.findings.push(Finding {
-                rule: "c20.snapshot_transfer_differs".into(),
-                detail: format!("after install_snapshot the receiver's metadata differs from the sender's at the snapshot point: receiver {} vs sender {}", receiver_state, sender_state).chars().take(700).collect(),
-                facts,
-            });
-            return;
-        }
-        // same suffix on both sides
-        apply_all(&mut a, &suffix, 1 + prefix.len() as u64).await;
-        apply_all(&mut b, &suffix, 1 + prefix.len() as u64).await;
-        let (sa, sb) = (norm(&octopii::StateMachineTrait::snapshot(&*meta_a)), norm(&octopii::StateMachineTrait::snapshot(&*meta_b)));
-        if sa != sb {
-            res.findings.push(Finding { rule: "c20.diverged_after_suffix".into(), detail: format!("sender and receiver differ after applying the same {} commands", suffix.len()), facts: BTreeMap::new() });
-        }
-        // applied state travels with the snapshot
-        let (la, _) = a.applied_state().await.unwrap();
-        let (lb, _) = b.applied_state().await.unwrap();
-        if la != lb {
-            res.findings.push(Finding { rule: "c20.applied_state_differs".into(), detail: format!("applied log id differs: {:?} vs {:?}", la, lb), facts: BTreeMap::new() });
         }
     });
-    res.stats.insert("commands".into(), (prefix.len() + suffix.len()) as u64);
-    let d = format!("{:?}", res.findings);
+    let end = tokio::sim::run_until(|| done.get(), u128::MAX);
+    if !done.get() {
+        findings.borrow_mut().push(Finding { rule: "c20.stuck".into(), detail: format!("the run did not finish: {:?}", end), facts: BTreeMap::new() });
+    }
+    res.findings = findings.borrow().clone();
+    res.stats = stats.borrow().clone();
+    res.nontrivial = nontrivial.get();
+    res.stats.insert("commands".into(), n_cmds as u64);
+    let d = format!("{:?}{}", res.findings, trace.borrow());
     res.digest = d.bytes().fold(0xcbf29ce484222325u64, |h, b| (h ^ b as u64).wrapping_mul(0x00000100000001B3));
     res.key = crate::mix(seed, 20);
     println!("{}", serde_json::to_string(&res).unwrap());
